@@ -13,11 +13,13 @@ import Asn1cModel.Generated.ReservedWords
     for every part, in order:
        part == " "                     → emit ' ', set nodelimiter, continue
        not the first part, !nodelimiter, !(flags & AMI_NODELIMITER) → emit '_'
-       (flags & AMI_CHECK_RESERVED) && first part && it is the ONLY part && reserved_keyword(part)
-                                       → emit toupper(part[0]), continue with part+1
        per character: isalnum → copy, subst_made = 0;
                       else if(!subst_made++) → '_'  (or the character itself if AMI_MASK_ONLY_SPACES && !isspace)
+       (flags & AMI_CHECK_RESERVED) && first part && it is the ONLY part && reserved_keyword(<the characters just
+                                       emitted for this part>) → the first emitted character is replaced by its toupper
     `subst_made` is local to one part (declared inside the loop body).
+    The keyword table is consulted on the *escaped* text (after '-' → '_'), so `and-eq`, `wchar-t`, `static-assert`
+    are recognised (repair of finding F80; before it the table was consulted on the unescaped part).
 
   `isalnum`/`isspace`/`toupper` are taken in the "C" locale (asn1c never calls setlocale).
 -/
@@ -55,14 +57,20 @@ def escapeChars (maskOnlySpaces : Bool) : Bool → List Char → List Char
       (if maskOnlySpaces && !isSpace c then c else '_') :: escapeChars maskOnlySpaces true cs
     else escapeChars maskOnlySpaces true cs
 
-/-- one part that is not the `" "` marker: optional delimiter, reserved-word capitalisation, characters -/
+/-- `if(reserved_keyword(part)) *part = toupper(*part);` on the characters emitted for one part -/
+def capitaliseIfReserved (out : List Char) : List Char :=
+  if reservedKeyword out then
+    match out with
+    | c :: cs => toUpper c :: cs
+    | [] => []
+  else out
+
+/-- one part that is not the `" "` marker: optional delimiter, characters, reserved-word capitalisation of
+    the escaped text -/
 def emitPart (fl : Flags) (first only nodelim : Bool) (p : List Char) : List Char :=
   let delim : List Char := if !first && !nodelim && !fl.noDelimiter then ['_'] else []
-  if fl.checkReserved && first && only && reservedKeyword p then
-    match p with
-    | c :: cs => delim ++ toUpper c :: escapeChars fl.maskOnlySpaces false cs
-    | [] => delim
-  else delim ++ escapeChars fl.maskOnlySpaces false p
+  let out := escapeChars fl.maskOnlySpaces false p
+  delim ++ (if fl.checkReserved && first && only then capitaliseIfReserved out else out)
 
 /-- the loop over the parts; `first` = this is the first part, `only` = the part list had exactly one
     element, `nodelim` = the `nodelimiter` variable -/
